@@ -73,6 +73,7 @@ pub fn dispatch(_ctx: &mut Ctx, op: &str, f: &[&str]) -> Option<String> {
             f.get(3).copied().unwrap_or(""),
         )),
         "U8" => Some(std_decode(&hex_decode(f.get(2).copied().unwrap_or("")))),
-        _ => None,
+        // further families live in their own files (fam_cxx.rs); chain them here
+        _ => crate::fam_c33::dispatch(_ctx, op, f),
     }
 }
